@@ -273,7 +273,8 @@ pub fn light_use<T: Transport>(d: &mut AnyDriver<T>, heavy: bool) -> Result<()> 
             let _ = c.recv(true)?;
         }
         AnyDriver::Gpu(g) => {
-            let _ = g.resolution()?;
+            let (rw, rh) = g.resolution()?;
+            let heavy = heavy && rw != 0 && rh != 0;
             g.move_cursor(1, 2)?;
             match g.get_edid(0) {
                 Ok(_) | Err(Error::Unsupported) => {}
